@@ -336,9 +336,21 @@ func checkExtendFolding(c *core.Ctx) {
 					if f := core.Callee(info, y); f != nil && f.Name() == "ConstantVal" {
 						folds = true
 					}
+				case *ast.SelectorExpr:
+					// … or tests them in conditions (`if op == ssa.OpcodeUExtend`), e.g. in a method the arm was moved into
+					switch y.Sel.Name {
+					case "OpcodeUExtend":
+						hasU = true
+					case "OpcodeSExtend":
+						hasS = true
+					}
 				}
 				return true
 			})
+			if !hasS && hasU && folds {
+				// one opcode tested, the other in the else branch
+				hasS = true
+			}
 			if !hasU || !hasS || !folds {
 				return
 			}
